@@ -122,14 +122,16 @@ class World:
         """entries: list of (slot, idterm or None for 'hide')  (ascending slots)"""
         L, I = self.L, self.I
         arr = Obj(name + ".attrs", L.A_size * max(len(entries), 1), "arg", 16, True)
-        for k, (slot, idt) in enumerate(entries):
+        for k, ent in enumerate(entries):
+            slot, idt = ent[0], ent[1]
+            omit = ent[2] if len(ent) > 2 else (idt is None)          # (slot, id, flag): a value that also carries the omit marker
             base = L.A_size * k
             if idt is None:
                 I.store_cell(arr, base + L.A_id, 32, SV(Poly.const(0)))      # the bindings zero the id of a hidden entry
             else:
                 I.store_cell(arr, base + L.A_id, 32, SV(Poly.const(idt)))
             I.store_cell(arr, base + L.A_idx, 4, slot)
-            I.store_cell(arr, base + L.A_omit, 1, int(idt is None))
+            I.store_cell(arr, base + L.A_omit, 1, int(omit))
         o = Obj(name, L.L_size, "arg", 8, True)
         I.store_cell(o, L.L_attrs, 8, Ptr(arr, 0))
         I.store_cell(o, L.L_len, 8, len(entries))
